@@ -787,3 +787,143 @@ Print Assumptions C02_wide_example.
 Theorem C02_switch_not_least : sw_check = true.
 Proof. exact switch_not_least. Qed.
 Print Assumptions C02_switch_not_least.
+
+(* ================================================================================================ *)
+(* Round 6 — THE CROSS-MODEL BRIDGE (coq/X12): the reader model of C01 (coq/C01/Model.v read_code, tied to
+   duke's class reader by C01's correspondence) is an independent parser of what the writer model writes.
+   C01 and C02 share no definition; coq/X12/BridgeDefs.v translates C02's vocabulary into C01's:
+   a Plain entry (opaque bytes) is decoded with C01's own opcode tables and operand decoder into one
+   instruction [plain_insn]; a conditional / goto / jsr / switch entry becomes the C01 instruction with the
+   index [T_of chs b last l] of the instruction carrying the label as target; a conditional written in its long
+   form becomes TWO instructions (opposite conditional to the instruction after the pair, then Goto to the
+   target); goto_w / jsr_w are read as Goto / Jsr.  Outside: Plain [] or several instructions in one Plain; a
+   jump / handler / start_pc / offset naming the LAST label (written by the writer, refused by the reader:
+   C02_bridge_examples, third part); a body whose last entry is a conditional in its long form; stack-map
+   frames; the pool. *)
+From FB Require C01.Model C01.Theory4 C01.Theory14 X12.BridgeDefs X12.BridgePlain X12.BridgeEnc X12.Bridge X12.BridgeShape X12.BridgeEx.
+
+(* Plain bytes vs structured operands: what [plain_insn] accepts is C01's own second-pass decoding of the bytes
+   (empty label set: no branch, no switch), has no target, and C01's GENERAL encoder maps it — under the opcode
+   form and ignored bytes read off the entry — back to exactly the bytes, at every position and layout. *)
+Theorem C02_bridge_plain : forall bs i,
+  X12.BridgeDefs.plain_insn bs = Some i -> C01.Theory14.is_bytes bs ->
+  (forall posf pos, C01.Model.enc1 posf pos (X12.BridgeDefs.plain_choice bs) i = Some bs) /\
+  C01.Model.targets i = [] /\
+  exists i0 n, C01.Model.dec1 [] 0%N bs = Ok (i0, n, []) /\ i = C01.Model.map_insn X12.BridgeDefs.zN i0.
+Proof. exact (fun bs i H B => conj (X12.BridgePlain.plain_enc bs i H B)
+                              (conj (X12.BridgePlain.plain_targets bs i H) (X12.BridgePlain.plain_insn_dec1 bs i H))). Qed.
+Print Assumptions C02_bridge_plain.
+
+(* THE TRANSLATION COMMUTES WITH THE TWO ENCODERS: wherever C02's general encoder produces w admissibly
+   (choices chs, labels at the positions of its own layout), C01's general encoder produces the same w from the
+   translated body under the translated choice function, and C01's layout of the translated body puts every
+   label at the same offset. *)
+Theorem C02_bridge_encode : forall b chs last w,
+  length chs = length b -> X12.BridgeDefs.body_in chs b = true ->
+  encode chs (labpos chs 0 b last) 0 b = Some w ->
+  admissible chs (labpos chs 0 b last) 0 b = true ->
+  C01.Model.encode (X12.BridgeDefs.tr_ch chs b) (X12.BridgeDefs.tr_body chs b last) = Some w /\
+  forall l t, labpos chs 0 b last l = Some t ->
+    0 <= t /\
+    C01.Model.posf_of (C01.Model.layout (X12.BridgeDefs.tr_ch chs b) (X12.BridgeDefs.tr_body chs b last))
+                      (X12.BridgeDefs.T_of chs b last l) = Z.to_N t.
+Proof. exact X12.Bridge.bridge_encode. Qed.
+Print Assumptions C02_bridge_encode.
+
+(* READ (C01) o WRITE (C02) on the Code array and its tables.  For every body of the fragment, with unique
+   labels, whose jumps and table start / handler / offset labels are carried by instructions: whatever
+   write_code answers (code array w, wide set Wd, resolved tables rt), C01's reader model, handed w and the
+   tables as they stand in the file (offsets; local-variable ranges as start_pc / length; the first nl single
+   offsets as line numbers with payloads [lines]), succeeds and delivers [expected body' tables']: the
+   translated instruction list with every branch target and switch arm on the translated target, exactly the
+   referenced instructions labelled, every exception range / line number / local-variable range / offset on
+   the instruction (or end of code) the tree's label designates — labels compared by the instruction that
+   carries them (C01_expected_shape says what [expected] contains). *)
+Theorem C02_bridge_write_read : forall hasmax b last tb w Wd rt nl lines,
+  unique_labels b last ->
+  X12.BridgeDefs.body_in (chs_run Wd 0%N 0 [] b) b = true ->
+  X12.BridgeDefs.refs_carried b = true -> X12.BridgeDefs.tables_carried b tb = true ->
+  write_code hasmax b last tb = Some (OK (w, Wd, rt)) ->
+  let chs := chs_run Wd 0%N 0 [] b in
+  C01.Model.read_code (X12.BridgeDefs.code_in_of_written w rt nl lines)
+  = Ok (C01.Theory4.expected (X12.BridgeDefs.tr_body chs b last)
+                             (X12.BridgeDefs.tr_tables (X12.BridgeDefs.T_of chs b last) tb nl lines)).
+Proof. exact X12.Bridge.bridge_write_read. Qed.
+Print Assumptions C02_bridge_write_read.
+
+(* [body_in chs b]: every entry in the fragment and the last entry not a conditional in its long form; it is
+   implied by the condition that does not mention the outcome: no conditional in last place *)
+Theorem C02_bridge_write_read_simple : forall hasmax b last tb w Wd rt nl lines,
+  unique_labels b last ->
+  X12.BridgeDefs.body_in_simple b = true ->
+  X12.BridgeDefs.refs_carried b = true -> X12.BridgeDefs.tables_carried b tb = true ->
+  write_code hasmax b last tb = Some (OK (w, Wd, rt)) ->
+  let chs := chs_run Wd 0%N 0 [] b in
+  C01.Model.read_code (X12.BridgeDefs.code_in_of_written w rt nl lines)
+  = Ok (C01.Theory4.expected (X12.BridgeDefs.tr_body chs b last)
+                             (X12.BridgeDefs.tr_tables (X12.BridgeDefs.T_of chs b last) tb nl lines)).
+Proof. exact X12.Bridge.bridge_write_read_simple. Qed.
+Print Assumptions C02_bridge_write_read_simple.
+
+(* the same for ANY admissible encoding of the general encoder (not only the one write_code ends with) *)
+Theorem C02_bridge_read_encoding : forall b chs last w tb rt nl lines,
+  length chs = length b ->
+  X12.BridgeDefs.body_in chs b = true -> X12.BridgeDefs.refs_carried b = true -> X12.BridgeDefs.tables_carried b tb = true ->
+  encode chs (labpos chs 0 b last) 0 b = Some w ->
+  admissible chs (labpos chs 0 b last) 0 b = true ->
+  w <> [] -> (N.of_nat (length w) <= 65535)%N ->
+  mapO (L3 (labpos chs 0 b last)) (t_exc tb) = Some (r_exc rt) ->
+  mapO (labpos chs 0 b last) (t_offs tb) = Some (r_offs rt) ->
+  mapO (Lrange (labpos chs 0 b last)) (t_ranges tb) = Some (r_ranges rt) ->
+  Forall (fun x => 0 <= snd x) (r_ranges rt) ->
+  C01.Model.read_code (X12.BridgeDefs.code_in_of_written w rt nl lines)
+  = Ok (C01.Theory4.expected (X12.BridgeDefs.tr_body chs b last)
+                             (X12.BridgeDefs.tr_tables (X12.BridgeDefs.T_of chs b last) tb nl lines)).
+Proof. exact X12.Bridge.bridge_read_encoding. Qed.
+Print Assumptions C02_bridge_read_encoding.
+
+(* what the translated body is, entry by entry: the j-th entry of the tree is seen as [tr_entry T k c e]
+   (one instruction; two for a conditional in its long form: Gen inv [OpT (2 + k)]; Gen 167 [OpT (T l)]) at
+   index k = the number of instructions before it; a label is the index of the first instruction of the entry
+   that carries it; the last label is the number of instructions. *)
+Theorem C02_bridge_body_at : forall b chs last j lb e c k,
+  nth_error b j = Some (lb, e) -> nth_error chs j = Some c -> nth_error (X12.BridgeShape.eidx chs 0 b) j = Some k ->
+  firstn (X12.BridgeDefs.cnt c e) (skipn k (X12.BridgeDefs.tr_body chs b last))
+  = X12.BridgeDefs.tr_entry (X12.BridgeDefs.T_of chs b last) k c e.
+Proof. exact X12.BridgeShape.tr_body_at. Qed.
+Print Assumptions C02_bridge_body_at.
+
+Theorem C02_bridge_labels : forall b chs last,
+  unique_labels b last ->
+  (forall j l e k, nth_error b j = Some (Some l, e) -> nth_error (X12.BridgeShape.eidx chs 0 b) j = Some k ->
+     X12.BridgeDefs.T_of chs b last l = k) /\
+  (forall l, last = Some l -> length chs = length b ->
+     X12.BridgeDefs.T_of chs b last l = length (X12.BridgeDefs.tr_body chs b last)).
+Proof. exact X12.BridgeShape.bridge_labels. Qed.
+Print Assumptions C02_bridge_labels.
+
+(* pool operands: an instruction `opcode, u16 pool index, further operands` — and the three kinds the writer
+   model assembles itself: ldc / ldc_w / ldc2_w and invokeinterface with its computed count byte — is seen by
+   the reader model as the instruction with exactly the index the writer wrote *)
+Theorem C02_bridge_pool_operands :
+  (forall op ctor k rs x post ops,
+     C01.Opcodes.pass2_entry op = C01.Opcodes.P2 ctor (C01.Opcodes.RCp16 k :: rs) -> 0 <= x < 65536 ->
+     C01.Model.dec_ops [] 0%N rs post = Ok (ops, []) ->
+     X12.BridgeDefs.plain_insn (op :: be16 x ++ post)
+     = Some (C01.Model.Gen ctor (C01.Model.OpC k (Z.to_N x) :: map (C01.Model.map_op X12.BridgeDefs.zN) ops))) /\
+  (forall i, X12.BridgeDefs.plain_insn [18; i]%N = Some (C01.Model.Gen 18%N [C01.Model.OpC 0%N i])) /\
+  (forall x, 0 <= x < 65536 ->
+     X12.BridgeDefs.plain_insn (19%N :: be16 x) = Some (C01.Model.Gen 18%N [C01.Model.OpC 0%N (Z.to_N x)]) /\
+     X12.BridgeDefs.plain_insn (20%N :: be16 x) = Some (C01.Model.Gen 18%N [C01.Model.OpC 0%N (Z.to_N x)])) /\
+  (forall x n, 0 <= x < 65536 ->
+     X12.BridgeDefs.plain_insn (185%N :: be16 x ++ [byte_of n; 0%N]) = Some (C01.Model.Gen 185%N [C01.Model.OpC 4%N (Z.to_N x)])).
+Proof. exact (conj X12.BridgeShape.plain_cp16 X12.BridgeShape.plain_writer_built). Qed.
+Print Assumptions C02_bridge_pool_operands.
+
+(* non-vacuity: (1) goto L; ifeq L; 32768 x nop; L: return — three attempts, both jumps widened; the reader
+   model sees Goto L; IfNe +2; Goto L; …  (2) tableswitch, lookupswitch, ldc, bipush, invokeinterface, wide iinc,
+   an exception range and a local-variable range ending at the last label;  (3) a goto to the last label is
+   written and then refused by the reader: refs_carried is necessary *)
+Theorem C02_bridge_examples : X12.BridgeEx.bridge_nonvacuous.
+Proof. exact X12.BridgeEx.bridge_nonvacuous_holds. Qed.
+Print Assumptions C02_bridge_examples.
